@@ -55,12 +55,21 @@ def make_streams(spec):
     return streams, recs, segs
 
 
+def _isn(v, segs):
+    """an ISN, or ["zero_at", k]: the ISN that puts the start of segment k (mod n) at sequence number 0 (wrap exactly on a
+    segment boundary - the value 0 is special in careless code)"""
+    if isinstance(v, (list, tuple)):
+        a = segs[v[1] % len(segs)][0] if segs else 0
+        return (-1 - a) & 0xFFFFFFFF
+    return v & 0xFFFFFFFF
+
+
 def run_session(spec, deliveries):
     """deliveries: [(dir, segment index)] in capture order.  Builds a fresh Session, feeds the packets, runs the reassembly with
     the record handler replaced by a recorder.  -> (handed {dir: [(bytes, [delivery indices])]}, exception | None)"""
     from tlexport.session import Session
     streams, recs, segs = make_streams(spec)
-    isn = {False: spec["isn"][0] & 0xFFFFFFFF, True: spec["isn"][1] & 0xFFFFFFFF}
+    isn = {False: _isn(spec["isn"][0], segs[False]), True: _isn(spec["isn"][1], segs[True])}
     got_contig = {False: 0, True: 0}
     got_iv = {False: [], True: []}
     pk = []
@@ -139,7 +148,8 @@ def evaluate_component(spec):
 
 REC = st.tuples(st.integers(0, 1), st.sampled_from([0x17, 0x17, 0x17, 0x16, 0x14, 0x15]),
                 st.one_of(st.integers(0, 40), st.sampled_from([0, 1, 5, 255, 256, 1400, 3000]))).map(list)
-ISN = st.one_of(st.integers(0, 2 ** 32 - 1), st.sampled_from([0, 2 ** 32 - 1, 2 ** 32 - 2, 2 ** 32 - 6, 2 ** 32 - 40, 2 ** 31 - 3]))
+ISN = st.one_of(st.integers(0, 2 ** 32 - 1), st.sampled_from([0, 2 ** 32 - 1, 2 ** 32 - 2, 2 ** 32 - 6, 2 ** 32 - 40, 2 ** 31 - 3]),
+                st.tuples(st.just("zero_at"), st.integers(0, 12)).map(list), st.tuples(st.just("zero_at"), st.integers(0, 12)).map(list))
 
 
 @st.composite
@@ -214,7 +224,9 @@ def make_machine(acc):
                 return
             multi = any(sum(1 for x, y in self.segs[d] if x < b and y > a) >= 2 for d in (False, True) for a, b in self.recs[d]) or \
                 any(sum(1 for a, b in self.recs[d] if x < b and y > a) >= 2 for d in (False, True) for x, y in self.segs[d])
-            wrap = any(((self.spec["isn"][int(d)] & 0xFFFFFFFF) + 1 + len(self.streams[d])) > 0xFFFFFFFF for d in (False, True))
+            wrap = any((_isn(self.spec["isn"][int(d)], self.segs[d]) + 1 + len(self.streams[d])) > 0xFFFFFFFF for d in (False, True))
+            if any(isinstance(v, list) for v in self.spec["isn"]):
+                self.kinds.add("seq0-on-boundary")
             if wrap:
                 self.kinds.add("wrap")
             if multi and self.kinds:
